@@ -88,8 +88,12 @@ class C04(PropBase):
                 for t in txns:
                     t["uuid"] = None
                 j = rng.randrange(len(txns))
+                # indistinguishable also when they carry the same (present) uuid: outside audit mode that is allowed, and
+                # they are still two transactions with their own postings
+                shared = common.gen_uuid(rng) if rng.random() < 0.5 else None
+                txns[j]["uuid"] = shared
                 for k in rng.sample(range(len(txns)), min(2, len(txns))):
-                    for f in ("ts", "code", "desc"):
+                    for f in ("ts", "code", "desc", "uuid"):
                         txns[k][f] = copy.deepcopy(txns[j][f])
             if klass == "empty-vs-absent":
                 # same instant; headers differ only by an empty vs an absent code / description / uuid
